@@ -148,6 +148,8 @@ def _outcome_copy(consumer: Any, chunk: bytes | None) -> tuple[str, Any]:
         return "more", None
     except StreamProtocolParseError as exc:
         return ("limit" if isinstance(exc.error, LimitOverrunError) else "err"), None
+    except Exception as exc:  # noqa: BLE001 - anything else is not an allowed outcome: the trace will be rejected
+        return "crash:" + type(exc).__name__, None
 
 
 def record(cfg: SepConfig, limit: int, path: str, syms: Sequence[int], chunking: Sequence[int], maxread: int) -> dict[str, Any]:
@@ -173,12 +175,16 @@ def record(cfg: SepConfig, limit: int, path: str, syms: Sequence[int], chunking:
             k, pkt = _outcome_copy(consumer, data[pos : pos + n])
             pos += n
             ev("read", n, k, pkt, held_after(k))
+            if k.startswith("crash"):
+                break
             while True:
                 k, pkt = _outcome_copy(consumer, None)
                 if k == "more":
                     ev("quiet", 0, "more", None, -1)
                     break
                 ev("drain", 0, k, pkt, held_after(k))
+                if k.startswith("crash"):
+                    break
     else:
         bconsumer = BufferedStreamDataConsumer(BufferedStreamProtocol(serializer), 1024)
 
@@ -203,6 +209,8 @@ def record(cfg: SepConfig, limit: int, path: str, syms: Sequence[int], chunking:
             pos += n
             k, pkt = _outcome_copy(bconsumer, n)
             ev("read", n, k, pkt, bheld())
+            if k.startswith("crash"):
+                break
             while True:
                 k, pkt = _outcome_copy(bconsumer, None)
                 if k == "more":
